@@ -85,8 +85,8 @@ PROPS['C01'] = dict(
     rule=APISEQ_RULE + 'Non-trivial iff init was accepted and >= 1 advancing call succeeded, or init was rejected and further calls followed; '
          'distinct = hash(document, executed op kinds).',
     tiers=dict(
-        quick=[rc(120000, shards=6, max_size=250, corpus=CORPUS), fuzz(400000, shards=10, corpus=CORPUS)],
-        thorough=[rc(600000, shards=4, max_size=500, corpus=CORPUS), fuzz(6000000, shards=12, max_len=4096, corpus=CORPUS)],
+        quick=[enum(shards=4, variant='san'), rc(120000, shards=6, max_size=250, corpus=CORPUS), fuzz(400000, shards=10, corpus=CORPUS)],
+        thorough=[enum(shards=4, variant='san'), rc(600000, shards=4, max_size=500, corpus=CORPUS), fuzz(6000000, shards=12, max_len=4096, corpus=CORPUS)],
     ),
 )
 
